@@ -7,7 +7,8 @@ EXPLANATION = (
     "branch decisions in program order): no path that ends in `raise` contains a graph / registry / parameter modification, "
     "and no registry entry is deleted after a modification unless the path itself establishes that the key is present "
     "(a dominating membership test on the name registries - which share their key set, C16-R1 - an earlier store, or a key "
-    "read from a live graph node); warnings.warn is exempt (raises only under a user-installed error filter); (R2) the "
+    "read from a live graph node); warnings.warn counts as a raise (it is one under `-W error`) and must precede the first "
+    "modification; (R2) the "
     "validation and query helpers the checks rely on are effect-free. Not decided: exceptions thrown by rustworkx for "
     "reasons the repository's own checks do not cover; subscript *loads* with an absent key.")
 
